@@ -220,6 +220,18 @@ func flipCase(g *G, s string) string {
 
 var revAll = []string{"rip", "rpfx", "rext"}
 
+// revLookAlikes: roots, wrong roots and names that look like reverse names without being ones
+// (also fed to the totality sweep of C01).
+var revLookAlikes = []string{"in-addr.arpa", "ip6.arpa", "IN-ADDR.ARPA", "İn-addr.arpa", "4.3.2.1.İn-addr.arpa", "xin-addr.arpa", "xip6.arpa", ".in-addr.arpa",
+	"in-addr.arpa.", "in-addr.arpa..", "aa.ip6.arpa", "ab.1.ip6.arpa", "xa.ip6.arpa", "00.in-addr.arpa", "00.1.in-addr.arpa", "000.10.in-addr.arpa",
+	"::ffff:4.3.2.1.in-addr.arpa", "::ffff:403:201.in-addr.arpa", "1.2.3.4%eth0.in-addr.arpa", "4.3.2.1.in-addr.arpa.com", "arpa", "1.arpa",
+	"4.3.2.1.in-addr.arpa.in-addr.arpa", "1.0.ip6.arpa.ip6.arpa", "xa.b.ip6.arpa", "ff.ip6.arpa", "a.b.c.ip6.arpa", "1.2.3.4.5.in-addr.arpa",
+	"xn---.1.in-addr.arpa", "xn---.ip6.arpa", "пример.1.in-addr.arpa", "1.пример.in-addr.arpa", "a\xff.ip6.arpa", "\xff.ip6.arpa",
+	// IPv6 literals with an embedded dotted quad in front of the IPv4 root; a label whose last characters look like an octet
+	"::4.3.2.1.in-addr.arpa", "1:2:3:4:5:6:7.8.9.10.in-addr.arpa", "::.3.2.1.in-addr.arpa", "::1.in-addr.arpa", "a::4.3.2.1.in-addr.arpa", "64:ff9b::4.3.2.1.in-addr.arpa",
+	"1_0.0.0.127.in-addr.arpa", "0x1.0.0.127.in-addr.arpa", "0b1.0.0.127.in-addr.arpa", "0o7.0.0.127.in-addr.arpa", "1_1.2_2.3.4.in-addr.arpa", "1.0.0.1_27.in-addr.arpa", "+1.0.0.127.in-addr.arpa",
+	"x192.168.in-addr.arpa", "xx10.in-addr.arpa", "a1.2.in-addr.arpa", "1234.5.in-addr.arpa", "x192.168.1.1.in-addr.arpa", "0192.168.in-addr.arpa", "x1.in-addr.arpa", "ab255.255.in-addr.arpa", "-192.168.in-addr.arpa", "_192.168.in-addr.arpa"}
+
 func genC04(g *G) {
 	for _, in := range longIDNNames() {
 		emitRev(g, []string{"rip", "rpfx", "rext"}, in)
@@ -302,11 +314,7 @@ func genC04(g *G) {
 		}
 	}
 	// roots, wrong roots, look-alikes
-	for _, s := range []string{"in-addr.arpa", "ip6.arpa", "IN-ADDR.ARPA", "İn-addr.arpa", "4.3.2.1.İn-addr.arpa", "xin-addr.arpa", "xip6.arpa", ".in-addr.arpa",
-		"in-addr.arpa.", "in-addr.arpa..", "aa.ip6.arpa", "ab.1.ip6.arpa", "xa.ip6.arpa", "00.in-addr.arpa", "00.1.in-addr.arpa", "000.10.in-addr.arpa",
-		"::ffff:4.3.2.1.in-addr.arpa", "::ffff:403:201.in-addr.arpa", "1.2.3.4%eth0.in-addr.arpa", "4.3.2.1.in-addr.arpa.com", "arpa", "1.arpa",
-		"4.3.2.1.in-addr.arpa.in-addr.arpa", "1.0.ip6.arpa.ip6.arpa", "xa.b.ip6.arpa", "ff.ip6.arpa", "a.b.c.ip6.arpa", "1.2.3.4.5.in-addr.arpa",
-		"xn---.1.in-addr.arpa", "xn---.ip6.arpa", "пример.1.in-addr.arpa", "1.пример.in-addr.arpa", "a\xff.ip6.arpa", "\xff.ip6.arpa"} {
+	for _, s := range revLookAlikes {
 		emitRev(g, revAll, s)
 	}
 	// ip6.arpa names of length 70..74 with a perturbed position
